@@ -803,6 +803,9 @@ package twig
 //@ func (*ZeroAllocTokenizer).TokenizeOptimized props: C04 C14 C05
 //@   loop 1 invariant 0 <= pos && pos <= len(t.source) && t.source == old(t.source) && (pos == 0 || afterCloser(t.source, pos) || afterOpener(t.source, pos))
 //@   atcall (*ZeroAllocTokenizer).AddToken#1 a1 == TOKEN_TEXT && pos < len(t.source) && a2 == substr(t.source, pos, len(t.source)) && noOpen(t.source, pos, len(t.source))
+// (the branch for an opener preceded by a backslash: the text tokens it emits are not the source at
+// the scan position, the backslash is dropped and the opener becomes text: recorded finding)
+//@   atcall[C04] (*ZeroAllocTokenizer).AddToken#3 a1 == TOKEN_TEXT && a2 == substr(t.source, pos, pos + len(a2))
 //@   atcall (*ZeroAllocTokenizer).AddToken#4 a1 == TOKEN_TEXT && pos < tagLoc.Position && a2 == substr(t.source, pos, tagLoc.Position) && openAt(t.source, tagLoc.Position) && noOpen(t.source, pos, tagLoc.Position)
 //@   atcall (*ZeroAllocTokenizer).AddToken#5 a2 == "" && openAt(t.source, tagLoc.Position) && noOpen(t.source, pos, tagLoc.Position) && a1 == startTok(t.source, tagLoc.Position)
 //@   atcall (*ZeroAllocTokenizer).AddToken#6 a1 == TOKEN_TEXT && t.source[tagLoc.Position + 1] == 35 && a2 == substr(t.source, tagLoc.Position + 2, tagEndPos)
@@ -834,6 +837,7 @@ package twig
 //@   loop 2 invariant (i >= 4 ==> (forall q int :: posT() <= q && (nextTagPos == 0 - 1 || q < nextTagPos) ==> !m3(srcT(), q)))
 //@   loop 2 invariant (i >= 5 ==> (forall q int :: posT() <= q && (nextTagPos == 0 - 1 || q < nextTagPos) ==> !m4(srcT(), q)))
 //@   loop 2 invariant nextTagPos == 0 - 1 || (posT() < nextTagPos && ((i >= 1 && m0(srcT(), nextTagPos) && tagType == TOKEN_VAR_START_TRIM && tagLength == 3) || (i >= 2 && m1(srcT(), nextTagPos) && !m0(srcT(), nextTagPos) && tagType == TOKEN_VAR_START && tagLength == 2) || (i >= 3 && m2(srcT(), nextTagPos) && tagType == TOKEN_BLOCK_START_TRIM && tagLength == 3) || (i >= 4 && m3(srcT(), nextTagPos) && !m2(srcT(), nextTagPos) && tagType == TOKEN_BLOCK_START && tagLength == 2) || (i >= 5 && m4(srcT(), nextTagPos) && tagType == TOKEN_COMMENT_START && tagLength == 2)))
+//@   atcall[C04] (*ZeroAllocTokenizer).AddToken#2 a1 == TOKEN_TEXT && a2 == substr(srcT(), posT(), posT() + len(a2))
 //@   atcall (*ZeroAllocTokenizer).AddToken#3 a1 == TOKEN_TEXT && a2 == substr(srcT(), posT(), len(srcT())) && noOpen(srcT(), posT(), len(srcT()))
 //@   atcall (*ZeroAllocTokenizer).AddToken#4 a1 == TOKEN_TEXT && posT() < nextTagPos && a2 == substr(srcT(), posT(), nextTagPos) && openAt(srcT(), nextTagPos) && noOpen(srcT(), posT(), nextTagPos)
 //@   atcall (*ZeroAllocTokenizer).AddToken#5 a2 == "" && openAt(srcT(), nextTagPos) && noOpen(srcT(), posT(), nextTagPos) && a1 == startTok(srcT(), nextTagPos) && tagLength == ite(srcT()[nextTagPos + 1] != 35 && dashAt(srcT(), nextTagPos + 2), 3, 2)
